@@ -172,7 +172,7 @@ func newCmd_SplitCar() *cli.Command {
 
 			createNewFile := func() error {
 				if currentFile != nil {
-					sl, err := writeSubsetNode(currentSubsetInfo, bufferedWriter)
+					sl, subsetNodeSize, err := writeSubsetNode(currentSubsetInfo, bufferedWriter)
 					if err != nil {
 						return fmt.Errorf("failed to write subset node: %w", err)
 					}
@@ -181,7 +181,7 @@ func newCmd_SplitCar() *cli.Command {
 					cf := carFile{
 						name:       fmt.Sprintf("epoch-%d-%d.car", epoch, currentFileNum),
 						payloadCid: sl.(cidlink.Link).Cid,
-						fileSize:   currentFileSize,
+						fileSize:   currentFileSize + subsetNodeSize, // the subset node follows the content
 					}
 					carFiles = append(carFiles, cf)
 
@@ -302,7 +302,7 @@ func newCmd_SplitCar() *cli.Command {
 				return fmt.Errorf("failed to run accumulator while accumulating objects: %w", err)
 			}
 
-			sl, err := writeSubsetNode(currentSubsetInfo, bufferedWriter)
+			sl, subsetNodeSize, err := writeSubsetNode(currentSubsetInfo, bufferedWriter)
 			if err != nil {
 				return fmt.Errorf("failed to write subset node: %w", err)
 			}
@@ -323,7 +323,7 @@ func newCmd_SplitCar() *cli.Command {
 				return fmt.Errorf("failed to construct epochNode: %w", err)
 			}
 
-			_, err = writeNode(epochNode, bufferedWriter)
+			_, epochNodeSize, err := writeNode(epochNode, bufferedWriter)
 			if err != nil {
 				return fmt.Errorf("failed to write epochNode: %w", err)
 			}
@@ -331,7 +331,7 @@ func newCmd_SplitCar() *cli.Command {
 			cf := carFile{
 				name:       fmt.Sprintf("epoch-%d-%d.car", epoch, currentFileNum),
 				payloadCid: sl.(cidlink.Link).Cid,
-				fileSize:   currentFileSize,
+				fileSize:   currentFileSize + subsetNodeSize + epochNodeSize, // subset and epoch nodes follow the content
 			}
 
 			carFiles = append(carFiles, cf)
@@ -397,7 +397,8 @@ func newCmd_SplitCar() *cli.Command {
 	}
 }
 
-func writeSubsetNode(currentSubsetInfo subsetInfo, writer io.Writer) (datamodel.Link, error) {
+// writeSubsetNode writes the subset node and returns its link and the size of the section written.
+func writeSubsetNode(currentSubsetInfo subsetInfo, writer io.Writer) (datamodel.Link, uint64, error) {
 	subsetNode, err := qp.BuildMap(ipldbindcode.Prototypes.Subset, -1, func(ma datamodel.MapAssembler) {
 		qp.MapEntry(ma, "kind", qp.Int(int64(iplddecoders.KindSubset)))
 		qp.MapEntry(ma, "first", qp.Int(int64(currentSubsetInfo.firstSlot)))
@@ -410,15 +411,15 @@ func writeSubsetNode(currentSubsetInfo subsetInfo, writer io.Writer) (datamodel.
 			}))
 	})
 	if err != nil {
-		return nil, fmt.Errorf("failed to write a subsetNode: %w", err)
+		return nil, 0, fmt.Errorf("failed to write a subsetNode: %w", err)
 	}
 
-	cid, err := writeNode(subsetNode, writer)
+	cid, size, err := writeNode(subsetNode, writer)
 	if err != nil {
-		return nil, fmt.Errorf("failed to write a subsetNode: %w", err)
+		return nil, 0, fmt.Errorf("failed to write a subsetNode: %w", err)
 	}
 
-	return cidlink.Link{Cid: cid}, nil
+	return cidlink.Link{Cid: cid}, size, nil
 }
 
 func closeFile(bufferedWriter *bufio.Writer, currentFile *os.File) error {
@@ -434,12 +435,13 @@ func closeFile(bufferedWriter *bufio.Writer, currentFile *os.File) error {
 	return nil
 }
 
-func writeNode(node datamodel.Node, w io.Writer) (cid.Cid, error) {
+// writeNode writes the node as a CAR section and returns its CID and the size of the section.
+func writeNode(node datamodel.Node, w io.Writer) (cid.Cid, uint64, error) {
 	node = node.(schema.TypedNode).Representation()
 	var buf bytes.Buffer
 	err := dagcbor.Encode(node, &buf)
 	if err != nil {
-		return cid.Cid{}, err
+		return cid.Cid{}, 0, err
 	}
 
 	data := buf.Bytes()
@@ -447,7 +449,7 @@ func writeNode(node datamodel.Node, w io.Writer) (cid.Cid, error) {
 	bd := cid.V1Builder{MhLength: -1, MhType: uint64(multicodec.Sha2_256), Codec: uint64(multicodec.DagCbor)}
 	cd, err := bd.Sum(data)
 	if err != nil {
-		return cid.Cid{}, err
+		return cid.Cid{}, 0, err
 	}
 
 	c := cd.Bytes()
@@ -457,11 +459,11 @@ func writeNode(node datamodel.Node, w io.Writer) (cid.Cid, error) {
 	if _, err := w.Write(sizeVi); err == nil {
 		if _, err := w.Write(c); err == nil {
 			if _, err := w.Write(data); err != nil {
-				return cid.Cid{}, err
+				return cid.Cid{}, 0, err
 			}
 		}
 	}
-	return cd, nil
+	return cd, uint64(len(sizeVi) + len(c) + len(data)), nil
 }
 
 func writeMetadata(metadata *splitcarfetcher.Metadata, epoch int) error {
